@@ -691,6 +691,189 @@ Definition enc_args (pos : list wobj) (kwsb : list (list Z * wobj)) : list wobj 
 Definition code_kws (kwsb : list (list Z * wobj)) : list (Z * wobj) := map (fun p => (name_code (fst p), snd p)) kwsb.
 Definition names_text (kwsb : list (list Z * wobj)) : bool := forallb (fun p => utf8_valid (fst p)) kwsb.
 
+(* ---- the whole `call` sequence: CallUnslicer (reqID, object id, method name, arguments) composed with ArgumentUnslicer.
+   The children of OPEN call are ARBITRARY: tokens / sequences of any kind in any number, or an `arguments` sequence with
+   arbitrary children, wherever the peer puts them.  Which type bytes each stage accepts and when the sequence may close
+   are tables computed by executing CallUnslicer.checkToken / receiveClose (gen/SchemaGen.v: cu_tok_ok, cu_close_ok). *)
+Inductive arr := ArOk (a : list obj) (kw : list (Z * obj)) | ArViol | ArAbort.
+
+(* ArgumentUnslicer up to (and including) its receiveClose, without the delivery *)
+Fixpoint au_collect (ms : mschema) (st : austate) (items : list wobj) {struct items} : arr :=
+  match items with
+  | [] => match au_close st with Some (a, kw) => ArOk a kw | None => ArAbort end
+  | w :: rest =>
+      match au_child ms st w with
+      | AuGo st' => au_collect ms st' rest
+      | AuViol => ArViol
+      | AuAbort => ArAbort
+      end
+  end.
+
+(* what the Broker knows: the object behind each connection-local id -- for clid >= 0 a Referenceable whose getInterface()
+   is a table method name -> schema (None: no RemoteInterface), for clid < 0 a bound method with an optional
+   .methodSchema --, requireSchema, and the reqIDs of calls still being answered *)
+Record target := { t_iface : option (list (Z * mschema)); t_methodSchema : option mschema }.
+Record benv := { be_objs : list (Z * target); be_require : bool; be_active : list Z }.
+
+Fixpoint assocZ {V} (k : Z) (l : list (Z * V)) : option V :=
+  match l with [] => None | (k', v) :: l' => if k =? k' then Some v else assocZ k l' end.
+
+Inductive citem := CTok (w : wobj) | CArgs (items : list wobj).
+
+(* QNoSchema: the addressed method has no schema in force (outside the property: nothing is declared) *)
+Inductive callv := QInvoke (clid : Z) (meth : option Z) (ms : mschema) (a : list obj) (kw : list (Z * obj))
+                 | QViol | QAbort | QFail | QNoSchema.
+
+Record custate := { cu_stage : Z; cu_objid : Z; cu_target : option target; cu_iface : option (list (Z * mschema));
+                    cu_meth : option Z; cu_ms : option mschema; cu_args : option (list obj * list (Z * obj)) }.
+
+Definition cu_init : custate :=
+  {| cu_stage := 0; cu_objid := 0; cu_target := None; cu_iface := None; cu_meth := None; cu_ms := None; cu_args := None |}.
+
+Inductive custep := CuGo (st : custate) | CuStop (r : callv).
+
+Definition typebyte_of (w : wobj) : Z :=
+  match w with
+  | WInt tb _ _ => tb | WFloat _ => tok_FLOAT | WStr vocab _ _ => if vocab then tok_VOCAB else tok_STRING
+  | _ => tok_OPEN
+  end.
+
+Definition cu_child (env : benv) (st : custate) (k : citem) : custep :=
+  let stage := cu_stage st in
+  match k with
+  | CArgs items =>
+      if negb (cu_tok_ok stage tok_OPEN) then CuStop QAbort           (* BananaError from checkToken *)
+      else match cu_ms st with
+           | None => CuStop QNoSchema
+           | Some ms =>
+               match au_collect ms au_init items with
+               | ArOk a kw => CuGo {| cu_stage := stage + 1; cu_objid := cu_objid st; cu_target := cu_target st; cu_iface := cu_iface st;
+                                      cu_meth := cu_meth st; cu_ms := cu_ms st; cu_args := Some (a, kw) |}
+               | ArViol => CuStop QViol
+               | ArAbort => CuStop QAbort
+               end
+           end
+  | CTok w =>
+      if negb (cu_tok_ok stage (typebyte_of w)) then CuStop QAbort
+      else
+        match w with
+        | WInt tb _ v =>
+            if stage =? 0 then
+              (* reqID: `assert self.reqID not in self.broker.activeLocalCalls` for a non-zero id *)
+              if negb (v =? 0) && memZ v (be_active env) then CuStop QAbort
+              else CuGo {| cu_stage := 1; cu_objid := 0; cu_target := None; cu_iface := None; cu_meth := None; cu_ms := None; cu_args := None |}
+            else if stage =? 1 then
+              match assocZ v (be_objs env) with
+              | None => CuStop QViol                                   (* KeyError -> Violation("unknown CLID") *)
+              | Some t => CuGo {| cu_stage := 2; cu_objid := v; cu_target := Some t;
+                                  cu_iface := if v <? 0 then None else t_iface t; cu_meth := None; cu_ms := None; cu_args := None |}
+              end
+            else CuStop QAbort
+        | WStr _ _ bs =>
+            if stage =? 2 then
+              if cu_objid st <? 0 then
+                (* a bound method: the name is ignored, the schema is the callable's .methodSchema *)
+                let ms := match cu_target st with Some t => t_methodSchema t | None => None end in
+                if be_require env && match ms with None => true | Some _ => false end then CuStop QViol
+                else CuGo {| cu_stage := 3; cu_objid := cu_objid st; cu_target := cu_target st; cu_iface := cu_iface st;
+                             cu_meth := None; cu_ms := ms; cu_args := None |}
+              else if negb (utf8_valid bs) then CuStop (if methodname_nontext_violation then QViol else QAbort)
+              else
+                let n := name_code bs in
+                match cu_iface st with
+                | Some tbl =>
+                    match assocZ n tbl with
+                    | None => CuStop QViol                             (* method not defined in the RemoteInterface *)
+                    | Some ms => CuGo {| cu_stage := 3; cu_objid := cu_objid st; cu_target := cu_target st; cu_iface := cu_iface st;
+                                         cu_meth := Some n; cu_ms := Some ms; cu_args := None |}
+                    end
+                | None => CuGo {| cu_stage := 3; cu_objid := cu_objid st; cu_target := cu_target st; cu_iface := cu_iface st;
+                                  cu_meth := Some n; cu_ms := None; cu_args := None |}
+                end
+            else CuStop QAbort
+        | _ => CuStop QAbort      (* a sequence that is not `arguments` where the arguments are expected: setConstraint(methodSchema)
+                                     on its unslicer / `assert isinstance(token, ArgumentUnslicer)` *)
+        end
+  end.
+
+Definition lift_cv (clid : Z) (meth : option Z) (ms : mschema) (r : cv) : callv :=
+  match r with CInvoke a kw => QInvoke clid meth ms a kw | CViol => QViol | CAbort => QAbort | CFail => QFail end.
+
+(* receiveClose ("'call' sequence ended too early" unless every stage is done) and the delivery through Broker._doCall *)
+Definition cu_close (st : custate) : callv :=
+  if negb (cu_close_ok (cu_stage st)) then QAbort
+  else match cu_ms st, cu_args st with
+       | Some ms, Some (a, kw) => lift_cv (cu_objid st) (cu_meth st) ms (doCall ms a kw)
+       | _, _ => QNoSchema
+       end.
+
+Fixpoint cu_run (env : benv) (st : custate) (kids : list citem) {struct kids} : callv :=
+  match kids with
+  | [] => cu_close st
+  | k :: rest => match cu_child env st k with CuGo st' => cu_run env st' rest | CuStop r => r end
+  end.
+
+(* an inbound `call` sequence with the children kids *)
+Definition recv_call_stream (env : benv) (kids : list citem) : callv := cu_run env cu_init kids.
+
+(* ---- RemoteCopy state under a declared stateSchema (copyable.py: AttributeDictConstraint, RemoteCopyUnslicer).
+   The children of OPEN copyable <typename> are attribute names and values in turn; each value is received under the
+   constraint getAttrConstraint hands out for its name; receiveClose builds the object from whatever was collected. *)
+Record attrschema := { as_keys : list argspec; as_ignore : bool; as_accept : bool }.
+
+Definition getAttrConstraint (s : attrschema) (n : Z) : gac :=
+  match lookup n (as_keys s) with
+  | Some a => GC true (Some (a_ctr a))                      (* an Optional is unwrapped *)
+  | None => if as_ignore s then GC false None else if as_accept s then GC true None else GViol
+  end.
+
+Inductive arv := ADeliver (state : list (Z * obj)) | AViol | AAbort.
+
+(* what AttributeDictConstraint.checkObject says about a state (acceptUnknown is not consulted there) *)
+Definition attr_state_ok (s : attrschema) (d : list (Z * obj)) : bool :=
+  forallb (fun nv => match lookup (fst nv) (as_keys s) with
+                     | Some a => checkObject (a_ctr a) (snd nv)
+                     | None => as_ignore s end) d &&
+  forallb (fun a => a_opt a || memZ (a_name a) (map fst d)) (as_keys s).
+
+(* receiveClose: obj = self.factory(self.d) -- the state is not checked against the schema (read from the source) *)
+Definition rc_close (s : option attrschema) (d : list (Z * obj)) : arv :=
+  match s with
+  | Some sc => if rc_close_checks_state && negb (attr_state_ok sc d) then AViol else ADeliver d
+  | None => ADeliver d
+  end.
+
+Fixpoint rc_run (s : option attrschema) (d : list (Z * obj)) (items : list wobj) {struct items} : arv :=
+  match items with
+  | [] => rc_close s d
+  | nametok :: rest =>
+      match nametok with
+      | WStr _ _ bs =>
+          if negb (utf8_valid bs) then (if rc_nontext_name_violation then AViol else AAbort)   (* six.ensure_str(obj) *)
+          else
+            let n := name_code bs in
+            if memZ n (map fst d) then AAbort                        (* BananaError: duplicate attribute name *)
+            else
+              let g := match s with Some sc => getAttrConstraint sc n | None => GC true None end in
+              match g with
+              | GViol => AViol
+              | GOther => AAbort
+              | GC accept oc =>
+                  if rc_asserts_accept && negb accept then AAbort    (* assert accept *)
+                  else match rest with
+                       | [] => rc_close s d                          (* a name without value: dropped at close *)
+                       | w :: rest' =>
+                           match recvw oc w with
+                           | RDeliver x => rc_run s (d ++ [(n, x)]) rest'
+                           | RViol => AViol
+                           | RAbort => AAbort
+                           end
+                       end
+              end
+      | _ => AAbort                                                  (* BananaError: keys must be STRINGs *)
+      end
+  end.
+
 (* an inbound `answer` for a request whose result constraint is oc *)
 Inductive av := Callback (v : obj) | Errback | ConnLost.
 
@@ -785,12 +968,18 @@ Fixpoint wwf (w : wobj) : bool :=
 
 (* ---- C02, result side: constraints whose token-level enforcement is complete (no minimum sizes, no arity, no
    value that only the object-level check knows about) *)
+Definition bound_nonneg (mx : option Z) : bool := match mx with Some m => 0 <=? m | None => true end.
+
 Fixpoint complete (c : ctr) : bool :=
   match c with
   | CAny | CNone => true
+  | COpt _ => true                                   (* Optional below the argument level accepts everything *)
   | CInt None | CNumber None => true
   | CBytes None mn => mn <=? 0
-  | CList ci None mn => (mn <=? 0) && complete ci
-  | CSet ci None None => complete ci
+  (* ANY maxLength / maxKeys >= 0: the unslicer's "the list / set / dict is full" test IS the size check *)
+  | CList ci mx mn => (mn <=? 0) && bound_nonneg mx && complete ci
+  | CSet ci mx None => bound_nonneg mx && complete ci       (* mutable= is only known to checkObject *)
+  | CDict k v mk => bound_nonneg mk && complete k && complete v
+  | CRemote None => true
   | _ => false
   end.
